@@ -24,6 +24,14 @@ def log_prob(self, value):
 `sample` stores `(samples, the walks' own log-probabilities)` when `cache_samples` is set and
 at least one sample was drawn; `clear_cache` empties both. `validate_args=None` leaves
 `Distribution._validate_args` at its class default `__debug__`, i.e. validation is **on**.
+
+**Scoring can raise** (audit finding): the language model or `sequence_log_probs` may raise while
+`value` is scored (e.g. an embedding lookup of an out-of-vocabulary token that sits after the
+first `eos`, which `_validate_sample` accepts). The code as pinned has already executed
+`self._samples_cache = value` at that point, while `_log_probs_cache` still holds the scores of
+the previous value (or `None`): the cache is left inconsistent. The model has a `pinned` switch:
+`true` = the code as pinned (samples written before scoring), `false` = the repaired order
+(both caches written after the scores exist).
 -/
 namespace PdtVerif.SeqScore
 
@@ -41,6 +49,8 @@ structure DistCfg (Value Scores : Type) where
   emptyScores : Value → Scores
   /-- `lm(hist[:-1])` followed by `SequenceLogProbabilities(1, eos)`, reshaped -/
   score : Value → Scores
+  /-- the language model (or `sequence_log_probs`) raises while this value is scored -/
+  raises : Value → Bool
 
 /-- `(_samples_cache, _log_probs_cache)` -/
 structure DistCache (Value Scores : Type) where
@@ -52,15 +62,18 @@ def DistCache.empty {Value Scores : Type} : DistCache Value Scores := ⟨none, n
 inductive DistErr where
   | valueError   -- `_validate_sample`
   | assertion    -- `assert self._log_probs_cache is not None`
+  | scoring      -- whatever the language model / `sequence_log_probs` raised
   deriving DecidableEq, Repr
 
 /-- `self._validate_args` after `Distribution.__init__(…, validate_args)`: the class default is
 `__debug__` (true unless python runs with `-O`). -/
 def validating (validateArgs : Option Bool) : Bool := validateArgs.getD true
 
-/-- `log_prob(value)`: result and next cache. -/
-def logProbStep {Value Scores : Type} [DecidableEq Value] (cfg : DistCfg Value Scores)
-    (st : DistCache Value Scores) (value : Value) :
+/-- `log_prob(value)`: result and next cache. `pinned = true`: `_samples_cache = value` is
+executed before the scores are computed (the code as pinned), so a raising language model leaves
+`(value, scores of the previous value)` behind. -/
+def logProbStep {Value Scores : Type} [DecidableEq Value] (pinned : Bool)
+    (cfg : DistCfg Value Scores) (st : DistCache Value Scores) (value : Value) :
     Except DistErr Scores × DistCache Value Scores :=
   if validating cfg.validateArgs && !cfg.valid value then (.error .valueError, st)
   else if cfg.isEmpty value then (.ok (cfg.emptyScores value), st)
@@ -68,6 +81,8 @@ def logProbStep {Value Scores : Type} [DecidableEq Value] (cfg : DistCfg Value S
     match st.logProbs with
     | some l => (.ok l, st)
     | none => (.error .assertion, st)
+  else if cfg.raises value then
+    (.error .scoring, if pinned && cfg.cacheSamples then ⟨some value, st.logProbs⟩ else st)
   else
     let l := cfg.score value
     if cfg.cacheSamples then (.ok l, ⟨some value, some l⟩) else (.ok l, st)
@@ -86,20 +101,22 @@ inductive DistOp (Value Scores : Type) where
   | clearCache
 
 /-- Run a sequence of calls on one distribution object; the outputs of the `log_prob` calls. -/
-def runDist {Value Scores : Type} [DecidableEq Value] (cfg : DistCfg Value Scores) :
+def runDist {Value Scores : Type} [DecidableEq Value] (pinned : Bool)
+    (cfg : DistCfg Value Scores) :
     DistCache Value Scores → List (DistOp Value Scores) → List (Except DistErr Scores)
   | _, [] => []
-  | st, .sample e d w :: ops => runDist cfg (sampleStep cfg st e d w) ops
+  | st, .sample e d w :: ops => runDist pinned cfg (sampleStep cfg st e d w) ops
   | st, .logProb v :: ops =>
-    let r := logProbStep cfg st v
-    r.1 :: runDist cfg r.2 ops
-  | _, .clearCache :: ops => runDist cfg DistCache.empty ops
+    let r := logProbStep pinned cfg st v
+    r.1 :: runDist pinned cfg r.2 ops
+  | _, .clearCache :: ops => runDist pinned cfg DistCache.empty ops
 
 /-- `log_prob` of a distribution that never caches: the reference. -/
 def refLogProb {Value Scores : Type} (cfg : DistCfg Value Scores) (value : Value) :
     Except DistErr Scores :=
   if validating cfg.validateArgs && !cfg.valid value then .error .valueError
   else if cfg.isEmpty value then .ok (cfg.emptyScores value)
+  else if cfg.raises value then .error .scoring
   else .ok (cfg.score value)
 
 /-- The values handed to the `log_prob` calls of a sequence of operations. -/
@@ -136,9 +153,12 @@ def scoreRows (lm : LM) (V : Nat) (eos : Option Nat) (N : Option Nat) (rows : Li
   rows.zipIdx.map (fun rn => some (distLogProb lm V eos (elemOf N rn.2) (rn.1.map Int.ofNat)))
 
 /-- The distribution of the model as a `DistCfg`: validation is the repaired
-`_validate_sample` on every row, a value without rows is the empty sample. -/
+`_validate_sample` on every row, a value without rows is the empty sample; `raises` says on which
+values the language model raises (none for the model's own total `LM`). -/
 def distCfg (lm : LM) (V : Nat) (eos : Option Nat) (maxIters : Option Nat) (N : Option Nat)
-    (cache : Bool) (validateArgs : Option Bool) : DistCfg (List (List Nat)) (List (Option Rat)) where
+    (cache : Bool) (validateArgs : Option Bool)
+    (raises : List (List Nat) → Bool := fun _ => false) :
+    DistCfg (List (List Nat)) (List (Option Rat)) where
   cacheSamples := cache
   validateArgs := validateArgs
   valid := fun v => v.all (fun r =>
@@ -146,5 +166,12 @@ def distCfg (lm : LM) (V : Nat) (eos : Option Nat) (maxIters : Option Nat) (N : 
   isEmpty := fun v => v.isEmpty
   emptyScores := fun _ => []
   score := scoreRows lm V eos N
+  raises := raises
+
+/-- A language model that looks its history up in an embedding table raises (`IndexError`) on a
+value one of whose rows holds an out-of-vocabulary token in `hist[:-1]`, i.e. anywhere but in the
+last position — also after the first `eos`, where `_validate_sample` does not look. -/
+def oovInHistory (V : Nat) (value : List (List Nat)) : Bool :=
+  value.any (fun r => r.dropLast.any (fun x => decide (V ≤ x)))
 
 end PdtVerif.SeqScore
